@@ -42,6 +42,10 @@ pub struct Property {
 
 thread_local! {
     static LAST_PANIC: RefCell<Option<(String, String)>> = const { RefCell::new(None) };
+    /// every panic raised on this thread during the current run — including the ones a runtime
+    /// catches inside a spawned task (tokio turns those into a dropped task, which would otherwise
+    /// surface only as a mysterious broken connection): (location, message, SimAbort class/detail)
+    static PANIC_LOG: RefCell<Vec<(String, String, Option<(String, String)>)>> = const { RefCell::new(Vec::new()) };
 }
 
 fn install_panic_hook() {
@@ -63,6 +67,13 @@ fn install_panic_hook() {
         if verbose {
             eprintln!("[panic] at {loc}: {msg}");
         }
+        let abort = info.payload().downcast_ref::<SimAbort>().map(|a| (a.class.clone(), a.detail.clone()));
+        PANIC_LOG.with(|p| {
+            let mut p = p.borrow_mut();
+            if p.len() < 8 {
+                p.push((loc.clone(), msg.clone(), abort));
+            }
+        });
         LAST_PANIC.with(|p| *p.borrow_mut() = Some((loc, msg)));
     }));
 }
@@ -126,10 +137,25 @@ pub fn run_one(scn: &Scenario, idx: u64, sim: Sim) -> RunEnd {
 
 fn run_one_unfiltered(scn: &Scenario, idx: u64, sim: Sim) -> RunEnd {
     LAST_PANIC.with(|p| *p.borrow_mut() = None);
+    PANIC_LOG.with(|p| p.borrow_mut().clear());
     let s2 = sim.clone();
     let r = catch_unwind(AssertUnwindSafe(|| (scn.run)(&s2, idx)));
     match r {
-        Ok(()) => RunEnd::Ok(sim.finish()),
+        Ok(()) => {
+            // panics that were caught on the way (inside spawned tasks)
+            let caught: Vec<(String, String, Option<(String, String)>)> = PANIC_LOG.with(|p| std::mem::take(&mut *p.borrow_mut()));
+            for (loc, msg, abort) in caught {
+                if let Some((class, detail)) = abort {
+                    sim.violation(&class, format!("{detail} (raised inside a spawned task)"));
+                } else if is_harness_location(&loc) {
+                    return RunEnd::HarnessPanic { loc, msg, report: sim.finish() };
+                } else {
+                    let nl = norm_loc(&loc);
+                    sim.violation(&format!("panic@{nl}"), format!("a spawned task panicked at {nl}: {msg}"));
+                }
+            }
+            RunEnd::Ok(sim.finish())
+        }
         Err(payload) => {
             if let Some(a) = payload.downcast_ref::<SimAbort>() {
                 sim.violation(&a.class, a.detail.clone());
@@ -206,6 +232,28 @@ impl Agg {
     }
 }
 
+/// Per-run wall-clock guard: (start second, scenario, idx, seed) of the run each worker is in.
+static RUN_GUARD: Mutex<Vec<(u64, String, u64, u64)>> = Mutex::new(Vec::new());
+
+fn guard_enter(scn: &str, idx: u64, seed: u64) -> usize {
+    let now = std::time::SystemTime::now().duration_since(std::time::UNIX_EPOCH).map(|d| d.as_secs()).unwrap_or(0);
+    let mut g = RUN_GUARD.lock().unwrap_or_else(|p| p.into_inner());
+    if let Some(i) = g.iter().position(|e| e.0 == 0) {
+        g[i] = (now, scn.to_string(), idx, seed);
+        i
+    } else {
+        g.push((now, scn.to_string(), idx, seed));
+        g.len() - 1
+    }
+}
+
+fn guard_leave(slot: usize) {
+    let mut g = RUN_GUARD.lock().unwrap_or_else(|p| p.into_inner());
+    if let Some(e) = g.get_mut(slot) {
+        e.0 = 0;
+    }
+}
+
 fn run_batch(prop: &Property, scn: &Scenario, n: u64, batch_seed: u64, threads: usize) -> Agg {
     let next = AtomicU64::new(0);
     let stop = AtomicBool::new(false);
@@ -225,7 +273,10 @@ fn run_batch(prop: &Property, scn: &Scenario, n: u64, batch_seed: u64, threads: 
                     }
                     let seed = seed_for(batch_seed, prop.id, scn.name, idx);
                     let sim = Sim::generate(seed, false);
-                    let rep = match run_one(scn, idx, sim) {
+                    let slot = guard_enter(scn.name, idx, seed);
+                    let res = run_one(scn, idx, sim);
+                    guard_leave(slot);
+                    let rep = match res {
                         RunEnd::Ok(r) => r,
                         RunEnd::HarnessPanic { loc, msg, .. } => {
                             a.harness = Some(format!(
@@ -831,12 +882,30 @@ pub fn cmd_show(prop: &Property, scn_name: &str, idx: u64) -> i32 {
 fn watchdog() {
     // A pure CPU loop that never touches a seam cannot be interrupted in-process; turn it into a
     // harness error instead of a silent hang.  Wall clock is used here only, never inside a run.
-    let limit: u64 = std::env::var("VERIF_WATCHDOG_S").ok().and_then(|s| s.parse().ok()).unwrap_or(3600);
+    let limit: u64 = std::env::var("VERIF_WATCHDOG_S").ok().and_then(|s| s.parse().ok()).unwrap_or(7200);
+    let run_limit: u64 = std::env::var("VERIF_RUN_WALL_S").ok().and_then(|s| s.parse().ok()).unwrap_or(300);
     std::thread::spawn(move || {
-        std::thread::sleep(std::time::Duration::from_secs(limit));
-        eprintln!("HARNESS-ERROR: watchdog: process exceeded {limit}s wall clock");
-        println!("HARNESS-ERROR: watchdog: process exceeded {limit}s wall clock");
-        std::process::exit(2);
+        let t0 = Instant::now();
+        loop {
+            std::thread::sleep(std::time::Duration::from_secs(2));
+            if t0.elapsed().as_secs() > limit {
+                eprintln!("HARNESS-ERROR: watchdog: process exceeded {limit}s wall clock");
+                println!("HARNESS-ERROR: watchdog: process exceeded {limit}s wall clock");
+                std::process::exit(2);
+            }
+            let now = std::time::SystemTime::now().duration_since(std::time::UNIX_EPOCH).map(|d| d.as_secs()).unwrap_or(0);
+            let g = RUN_GUARD.lock().unwrap_or_else(|p| p.into_inner());
+            for e in g.iter() {
+                if e.0 != 0 && now.saturating_sub(e.0) > run_limit {
+                    // a single simulated run that does not come back: a loop that never touches a
+                    // seam (neither the step budget nor the task-poll budget can interrupt it)
+                    let msg = format!("watchdog: one simulated run exceeded {run_limit}s of wall clock: scenario {} run_index {} seed {} (re-run with `show`)", e.1, e.2, e.3);
+                    eprintln!("HARNESS-ERROR: {msg}");
+                    println!("HARNESS-ERROR: {msg}");
+                    std::process::exit(2);
+                }
+            }
+        }
     });
 }
 
